@@ -189,15 +189,21 @@ def run(cx):
         ok = t[0] == "agg" and t[2].endswith("Option::Some") and mentions_field(t, "max_idle_timeout_ms") and mentions_param(t, "self")
         ob.require(ok, "idle/arg", f"max_idle_timeout({show(t)[:120]})", b.path)
         # conversion closure: VarInt::try_from(n).unwrap_or(MAX) (milliseconds, saturating)
+        # as a closure, as a (new, inlined) helper fn, or inline: somewhere on the way the ms count goes through try_from + unwrap_or
         cls = [x for x in walk(t) if x[0] == "agg" and x[1] == "closure"]
         okc = False
         for c_ in cls:
             kb = prog.body(c_[2])
             r = strip_identity(Origins(kb).of_local(0)) if kb else ("u",)
-            okc = okc or (r[0] == "call" and name_matches(r[1], "Result::unwrap_or") and term_has_call(r, "TryFrom::try_from") and mentions_param(r, "n"))
+            okc = okc or (r[0] == "call" and name_matches(r[1], "Result::unwrap_or") and term_has_call(r, "TryFrom::try_from") and any(x[0] == "param" for x in walk(r)))
+        if not okc:
+            uo = [x for x in walk(t) if x[0] == "call" and name_matches(x[1], "Result::unwrap_or") and term_has_call(x, "TryFrom::try_from") and mentions_field(x, "max_idle_timeout_ms")]
+            okc = bool(uo)
         ob.require(okc, "idle/conversion", "idle timeout is not converted with VarInt::try_from(n).unwrap_or(MAX)", b.path)
         t = strip_identity(arg_origin(ka[0], 1, o))
-        ok = t[0] == "agg" and t[2].endswith("Option::Some") and mentions_field(t, "keep_alive_interval_ms") and any(x == ("fnptr", "core::time::Duration::from_millis") for x in walk(t))
+        ok = t[0] == "agg" and t[2].endswith("Option::Some") and mentions_field(t, "keep_alive_interval_ms") and \
+            (any(x == ("fnptr", "core::time::Duration::from_millis") for x in walk(t)) or
+             any(x[0] == "call" and name_matches(x[1], "core::time::Duration::from_millis") and mentions_field(x, "keep_alive_interval_ms") for x in walk(t)))
         ob.require(ok, "keepalive/arg", f"keep_alive_interval({show(t)[:120]})", b.path)
         for c in (mi[0], ka[0]):
             r = strip_identity(arg_origin(c, 0, o))
